@@ -40,6 +40,15 @@ Theorem C19_loop_bound_is_slack :
 Proof. exact c19_loops_le. Qed.
 Print Assumptions C19_loop_bound_is_slack.
 
+(* ... hence any larger bound gives the same system: every state reachable with a bound
+   K >= 2 is reachable with bound 2 and has the same successors, so all theorems of this
+   file hold for every bound on the loops in flight *)
+Theorem C19_loop_bound_irrelevant :
+  forall K, 2 <= K -> forall s, reach (next tree_cfg K) init s ->
+    reach (next tree_cfg model_K) init s /\ next tree_cfg K s = next tree_cfg model_K s.
+Proof. exact c19_any_K. Qed.
+Print Assumptions C19_loop_bound_irrelevant.
+
 (* Once the daemon stays up and nobody calls, the goroutines come to rest: from every
    reachable state every sequence of internal steps is finite. *)
 Theorem C19_reconnect_terminates :
